@@ -4,7 +4,7 @@ Import ListNotations.
 From BD.Sched Require Import Model Proofs.
 
 Definition sd (ds : list nat) (r : nat) : stepdef :=
-  {| deps := ds; cof := false; cos := false; rlimit := r; pre := true; sfail := false; repeat := false |}.
+  {| deps := ds; cof := false; cos := false; rlimit := r; pre := true; sfail := false; repeat := false; cfails := 0 |}.
 
 Lemma norepeat_mkcfg l k d1 d2 : forallb (fun x => negb (repeat x)) l = true -> norepeat (mkcfg l k d1 d2).
 Proof.
@@ -78,7 +78,7 @@ Qed.
 Definition mixed : cfg :=
   mkcfg [ sd [] 1;
           sd [0] 0;
-          {| deps := []; cof := false; cos := false; rlimit := 0; pre := false; sfail := false; repeat := false |};
+          {| deps := []; cof := false; cos := false; rlimit := 0; pre := false; sfail := false; repeat := false; cfails := 0 |};
           sd [2] 0;
           sd [] 0 ] 0 false true.
 Definition attempt (i : nat) (ok : bool) : list label := launch i ++ [WExecEnd i ok; WAfter i false].
